@@ -19,6 +19,20 @@ CONSTANTS = ("H2O_SLD", "D2O_SLD")
 MAX_REPORTS = 2
 
 
+def limit_memory(gib=4):
+    """Cap the address space of this task's process, so that a runaway allocation in the library raises MemoryError
+    (reported as a violation with the library frame) instead of getting the worker killed, which would stall the pool."""
+    try:
+        import resource
+        soft, hard = resource.getrlimit(resource.RLIMIT_AS)
+        want = gib << 30
+        if hard != resource.RLIM_INFINITY:
+            want = min(want, hard)
+        resource.setrlimit(resource.RLIMIT_AS, (want, hard))
+    except Exception:  # noqa
+        pass
+
+
 def _same(a, b):
     if a is b:
         return True
